@@ -2,14 +2,18 @@
 
 pub mod boardprops;
 pub mod cutprops;
+pub mod determ;
 pub mod eng;
 pub mod evalprop;
 pub mod explore;
 pub mod fenprop;
 pub mod goprops;
 pub mod infogrammar;
+pub mod mates;
 pub mod oracle;
+pub mod posprop;
 pub mod procprops;
+pub mod refsearch;
 pub mod report;
 pub mod sched;
 pub mod searchrun;
@@ -69,10 +73,14 @@ pub fn main() -> i32 {
         "C07" => fenprop::run(&args),
         "C17" => evalprop::run(&args),
         "C13" => cutprops::run(&args),
+        "C08" => posprop::run(&args),
         "C09" => procprops::c09_run(&args),
         "C14" => procprops::c14_run(&args),
         "C15" => procprops::c15_run(&args),
         "C10" => sched::run(&args),
+        "C11" => refsearch::run(&args),
+        "C12" => mates::run(&args),
+        "C16" => determ::run(&args),
         "sched-debug" => {
             let idx: usize = args.rest.first().and_then(|x| x.parse().ok()).unwrap_or(0);
             let choices: Vec<usize> = args.rest.iter().skip(1).filter_map(|x| x.parse().ok()).collect();
@@ -96,9 +104,13 @@ pub fn main() -> i32 {
             };
             match id.as_str() {
                 "C13" => cutprops::worker(&args, &w),
+                "C08" => posprop::worker(&args, &w),
                 "C09" => goprops::c09_worker(&args, &w),
                 "C14" => goprops::c14_worker(&args, &w),
                 "C15" => procprops::c15_worker(&args, &w),
+                "C11" => refsearch::worker(&args, &w),
+                "C12" => mates::worker(&args, &w),
+                "C16" => determ::worker(&args, &w),
                 _ => 2,
             }
         }
@@ -130,10 +142,14 @@ fn replay(path: &str) -> i32 {
         "C07" => fenprop::replay(&doc),
         "C17" => evalprop::replay(&doc),
         "C13" => cutprops::replay(&doc),
+        "C08" => posprop::replay(&doc),
         "C09" => goprops::replay_c09(&doc),
         "C14" => goprops::replay_c14(&doc),
         "C15" => procprops::replay_c15(&doc),
         "C10" => sched::replay(&doc),
+        "C11" => refsearch::replay(&doc),
+        "C12" => mates::replay(&doc),
+        "C16" => determ::replay(&doc),
         _ => {
             eprintln!("no replay for property {prop}");
             2
